@@ -338,6 +338,12 @@ Lemma fork_child_is_copy_l s :
   k_ofd s1 = k_ofd s /\ k_ino s1 = k_ino s /\ snd (k_fork s) = RUnit.
 Proof. intros H. unfold k_fork. rewrite H. cbn. repeat split; reflexivity. Qed.
 
+(* the SIGCHLD for the parent touches its signal state only *)
+Lemma notify_rest p :
+  p_fds (notify p) = p_fds p /\ p_cwd (notify p) = p_cwd p /\ p_umask (notify p) = p_umask p /\
+  p_limit (notify p) = p_limit p /\ p_id (notify p) = p_id p.
+Proof. unfold notify. destruct (generate _ _); cbn; auto. Qed.
+
 Lemma fork_shares_offset_l s s1 fd w off s2 n s3 :
   k_fork s = (s1, RUnit) ->
   k_lseek s1 fd w off = (s2, ROff n) ->
@@ -353,8 +359,10 @@ Proof.
   match type of Hl with (if ?c then _ else _) = _ => destruct c eqn:Ec end; try discriminate.
   inversion Hl; subst s2 n; clear Hl.
   set (n := Z.to_N _) in *.
-  unfold k_exit in He. cbn in He. inversion He; subst s3; clear He.
-  unfold k_lseek, get_ofd. unfold fds in *. cbn [k_cur k_ofd k_ino p_fds] in *.
+  unfold k_exit in He. cbn [k_susp k_ino k_ofd k_unpriv set_off set_ofd] in He.
+  inversion He; subst s3; clear He.
+  unfold k_lseek, get_ofd. unfold fds in *. cbn [k_cur k_ofd k_ino] in *.
+  rewrite (proj1 (notify_rest _)). cbn [p_fds] in *.
   rewrite G, I.
   rewrite nth_set_nth_eq by (eapply nth_error_lt; eauto).
   cbn [o_ino o_off]. rewrite Ei.
@@ -455,6 +463,19 @@ Proof.
     apply signal_self_props; auto. eapply signal_ancestors_strip; eauto.
 Qed.
 
+Lemma k_sigmask_props s how sigs :
+  k_skip s = None ->
+  map strip (k_susp (fst (k_sigmask s how sigs))) = map strip (k_susp s) /\
+  sk (fst (k_sigmask s how sigs)) = O.
+Proof.
+  intros Hn. assert (Hs : sk s = O) by (unfold sk; rewrite Hn; reflexivity).
+  unfold k_sigmask. destruct (negb (sigs_ok sigs) || N.ltb 2 how); cbn [fst]; auto.
+  destruct (deliver_pending _ _); cbn [fst]; auto.
+  destruct (filter _ _) as [|sig [|sig2 l]]; cbn [fst]; auto.
+  destruct (N.eqb sig sigtstp); cbn [fst]; auto.
+  destruct (k_susp s) eqn:E; cbn [fst k_susp]; rewrite ?E; auto.
+Qed.
+
 Lemma step_live_props s o :
   o <> OFork -> o <> OExit -> k_skip s = None ->
   map strip (k_susp (fst (step_live s o))) = map strip (k_susp s) /\
@@ -463,11 +484,12 @@ Proof.
   intros Hf He Hn.
   assert (Hq : forall s', quiet s s' -> map strip (k_susp s') = map strip (k_susp s) /\ sk s' = O).
   { intros s' (A & B). rewrite A. unfold sk. rewrite B, Hn. auto. }
-  destruct o; try congruence; cbn [step_live]; try apply k_kill_props; auto; apply Hq;
+  destruct o; try congruence; cbn [step_live]; try apply k_kill_props; try apply k_sigmask_props;
+    auto; apply Hq;
     try apply k_open_quiet;
     try (unfold k_close, k_dup, k_dup2, k_read, k_write, k_lseek, k_fstat, k_stat, k_umask,
            k_chdir, k_getcwd, k_pipe, k_readdir, k_getfd, k_setfd, k_access,
-           k_sigaction, k_getsigaction, k_raise, k_caught, k_sigmask, k_setrlimit, k_setpgid0,
+           k_sigaction, k_getsigaction, k_raise, k_caught, k_setrlimit, k_setpgid0,
            k_droppriv, k_chmod;
          quiet_tac; fail).
 Qed.
@@ -559,6 +581,11 @@ Qed.
    descriptor table, cwd, umask, limit and IDs are as before, and so are those
    of all waiting ancestors.  (Signals the child sends reach their signal
    state only.) *)
+Lemma strip_notify p : strip (notify p) = strip p.
+Proof.
+  destruct (notify_rest p) as (A & B & C & D & E). unfold strip. rewrite A, B, C, D, E. reflexivity.
+Qed.
+
 Lemma subshell_isolation_l s ops :
   k_skip s = None -> nested 0 ops = true ->
   strip (k_cur (fst (run s (OFork :: ops ++ [OExit])))) = strip (k_cur s) /\
@@ -577,12 +604,12 @@ Proof.
   - subst e. destruct (k_susp s2) as [|p rest]; [discriminate|].
     cbn [map] in A.
     pose proof (f_equal (hd (strip p)) A) as A1. pose proof (f_equal (@tl _) A) as A2.
-    cbn [hd tl] in A1, A2. cbn -[strip]. split; assumption.
+    cbn [hd tl] in A1, A2. cbn -[strip notify]. rewrite strip_notify. split; assumption.
   - cbn [step_live]. unfold k_exit.
     destruct (k_susp s2) as [|p rest]; [discriminate|].
     cbn [map] in A.
     pose proof (f_equal (hd (strip p)) A) as A1. pose proof (f_equal (@tl _) A) as A2.
-    cbn [hd tl] in A1, A2. cbn -[strip]. split; assumption.
+    cbn [hd tl] in A1, A2. cbn -[strip notify]. rewrite strip_notify. split; assumption.
 Qed.
 
 (* ---- bytes ---------------------------------------------------------------------------------- *)
